@@ -6,6 +6,7 @@ import (
 	"encoding/hex"
 	"fmt"
 	"math/rand"
+	"sort"
 	"strconv"
 	"strings"
 
@@ -334,9 +335,36 @@ func renderBigCase(kind string, n int, kseed int64) *TrieCase {
 	if fam == "twosym" {
 		maxLen = 14
 	}
-	keys := genKeys(r, fam, n, maxLen)
+	keys := []string{}
+	if strings.HasPrefix(fam, "pairs-") {
+		// a palette of C(s,2) two-label bitmaps used often enough for a short table of size s
+		// (flat, not a caterpillar: a rendering indents by depth, so a trie thousands of levels
+		// deep has a rendering quadratic in its size)
+		var P int
+		fmt.Sscanf(fam, "pairs-%d", &P)
+		pairs := [][2]byte{}
+		for a := byte(0); a < 16; a++ {
+			for b := a + 1; b < 16; b++ {
+				pairs = append(pairs, [2]byte{a, b})
+			}
+		}
+		r.Shuffle(len(pairs), func(i, j int) { pairs[i], pairs[j] = pairs[j], pairs[i] })
+		pairs = pairs[:P]
+		for g := 0; g < n; g++ {
+			pr := pairs[g%P]
+			head := []byte{byte(g >> 16), byte(g >> 8), byte(g)}
+			keys = append(keys, string(append(append([]byte{}, head...), pr[0]<<4|0x1)), string(append(append([]byte{}, head...), pr[1]<<4|0x7)))
+		}
+		sort.Strings(keys)
+		keys = uniq(keys)
+	} else {
+		keys = genKeys(r, fam, n, maxLen)
+	}
 	o4 := all16[r.Intn(16)]
 	vals := valsRuns(r, "i32", len(keys), 1+r.Intn(4), 0)
+	if strings.HasPrefix(fam, "pairs-") {
+		vals = valsFromPattern("i32", len(keys), 0, 0) // every key retained: the palette keeps its counts
+	}
 	return &TrieCase{Keys: keys, Enc: "i32", Vals: vals, Opt4: o4}
 }
 
@@ -355,6 +383,13 @@ func runRenderBig(t *Tracer, m *Meta, kind string, n int, kseed int64) {
 	t.Emit(e)
 	m.Calls++
 	m.class(fmt.Sprintf("renderbig:id-digits=%d", len(fmt.Sprint(len(e["ids"].([]int))))))
+	if b, err := st.Marshal(); err == nil {
+		if sl, err := ParseSlim(b); err == nil {
+			if d, err := Decode(sl); err == nil {
+				m.class(fmt.Sprintf("renderbig:short-size=%d", d.ShortSize))
+			}
+		}
+	}
 	if st2, _, _ := Reload(c, st); st2 != nil {
 		t.Emit(renderBigEv(c, st2, 1, params, &text))
 		m.Calls++
@@ -368,9 +403,12 @@ func genRenderBig(t *Tracer, m *Meta, tier string, seed int64) {
 		n    int
 	}
 	// ~1.1 .. 2 nodes per key: 4-digit ids from ~700 keys, 5-digit from ~7000, 6-digit from ~70000
-	specs := []spec{{"uniform", 800 + r.Intn(400)}, {"ascii", 1500 + r.Intn(1000)}, {"uniform", 7000 + r.Intn(3000)}, {"palette", 9000 + r.Intn(3000)}}
+	specs := []spec{{"uniform", 800 + r.Intn(400)}, {"ascii", 1500 + r.Intn(1000)}, {"uniform", 7000 + r.Intn(3000)}, {"palette", 9000 + r.Intn(3000)},
+		// short tables of the larger sizes: C(s,2) two-label bitmaps, each used often enough
+		{"pairs-21", 2600}, {"pairs-28", 7500}}
 	if tier != "quick" {
-		specs = append(specs, spec{"uniform", 70000 + r.Intn(30000)}, spec{"ascii", 100000}, spec{"twosym", 3000}, spec{"mixed", 20000})
+		specs = append(specs, spec{"uniform", 70000 + r.Intn(30000)}, spec{"ascii", 100000}, spec{"twosym", 3000}, spec{"mixed", 20000},
+			spec{"pairs-36", 22000}, spec{"pairs-45", 70000})
 	}
 	for _, sp := range specs {
 		runRenderBig(t, m, sp.kind, sp.n, r.Int63())
